@@ -96,6 +96,10 @@ type emitter struct {
 	//    result in an invalid behavior.
 	alreadyInitializedVars map[*ast.Identifier]int16
 
+	// initVarsFuncs maps a package already emitted to the function that
+	// initializes its variables.
+	initVarsFuncs map[*ast.Package]*runtime.Function
+
 	// alreadyInitializedTemplatePkgs keeps track of the template packages for
 	// which the initialization code has already been emitted.
 	alreadyInitializedTemplatePkgs map[string]bool
@@ -111,6 +115,7 @@ func newEmitter(typeInfos map[ast.Node]*typeInfo, formatTypes map[ast.Format]ref
 		types:                          types.NewTypes(), // TODO: this is wrong: the instance should be taken from the type checker.
 		alreadyEmittedFuncs:            map[*ast.Func]*runtime.Function{},
 		alreadyInitializedVars:         map[*ast.Identifier]int16{},
+		initVarsFuncs:                  map[*ast.Package]*runtime.Function{},
 		alreadyInitializedTemplatePkgs: map[string]bool{},
 	}
 	em.fnStore = newFunctionStore(em)
@@ -151,10 +156,11 @@ func (em *emitter) emitPackage(pkg *ast.Package, extendingFile bool, path string
 	for _, decl := range pkg.Declarations {
 		if node, ok := decl.(*ast.Import); ok {
 			pkgInits := em.emitImport(node, false)
-			// Do not add duplicated init functions.
+			// Do not add duplicated init functions: a package imported by
+			// more than one package is initialized once.
 			for _, pkgInit := range pkgInits {
 				if !slices.Contains(inits, pkgInit) {
-					inits = append(inits, pkgInits...)
+					inits = append(inits, pkgInit)
 				}
 			}
 		}
@@ -165,6 +171,10 @@ func (em *emitter) emitPackage(pkg *ast.Package, extendingFile bool, path string
 
 	// initToBuild is the index of the next "init" function to build.
 	initToBuild := len(inits)
+
+	// numImportedInits is the number of functions that initialize the
+	// imported packages.
+	numImportedInits := len(inits)
 
 	if extendingFile {
 		// The function declarations have already been added to the list of
@@ -203,7 +213,29 @@ func (em *emitter) emitPackage(pkg *ast.Package, extendingFile bool, path string
 	// Emit the package variables.
 	var initVarsFn *runtime.Function
 	var initVarsFb *functionBuilder
+
+	// If the package has already been emitted, because it is imported by more
+	// than one package, its variables are not initialized again: the function
+	// that initializes them is the one emitted the first time.
+	initVarsEmitted := false
+	if fn, ok := em.initVarsFuncs[pkg]; ok {
+		initVarsFn = fn
+		initVarsEmitted = true
+		for _, dec := range pkg.Declarations {
+			if n, ok := dec.(*ast.Var); ok {
+				for _, v := range n.Lhs {
+					if index, ok := em.alreadyInitializedVars[v]; ok {
+						vars[v.Name] = index
+					}
+				}
+			}
+		}
+	}
+
 	for _, dec := range pkg.Declarations {
+		if initVarsEmitted {
+			break
+		}
 		if n, ok := dec.(*ast.Var); ok {
 			// If the package has some variable declarations, a special "init"
 			// function must be created to initialize them. "$initvars" is
@@ -281,14 +313,19 @@ func (em *emitter) emitPackage(pkg *ast.Package, extendingFile bool, path string
 			// must be called before executing every other statement of the main
 			// function.
 			if n.Ident.Name == "main" {
-				// First: initialize the package variables.
+				// First: initialize the imported packages, in order.
+				for _, initFunc := range inits[:numImportedInits] {
+					index := em.fb.addFunction(initFunc)
+					em.fb.emitCallFunc(index, runtime.StackShift{}, nil)
+				}
+				// Second: initialize the package variables.
 				if initVarsFn != nil {
 					iv, _ := em.fnStore.availableScriggoFn(em.pkg, "$initvars")
 					index := em.fb.addFunction(iv) // TODO: check addFunction
 					em.fb.emitCallFunc(index, runtime.StackShift{}, nil)
 				}
-				// Second: call all init functions, in order.
-				for _, initFunc := range inits {
+				// Third: call the init functions of the package, in order.
+				for _, initFunc := range inits[numImportedInits:] {
 					index := em.fb.addFunction(initFunc)
 					em.fb.emitCallFunc(index, runtime.StackShift{}, nil)
 				}
@@ -301,15 +338,19 @@ func (em *emitter) emitPackage(pkg *ast.Package, extendingFile bool, path string
 		}
 	}
 
-	if initVarsFn != nil {
+	if initVarsFn != nil && !initVarsEmitted {
 		initVarsFb.emitReturn()
 		initVarsFb.end()
+		em.initVarsFuncs[pkg] = initVarsFn
 	}
 
 	// If this package is imported, initFuncs must contain initVarsFn, that is
-	// processed as a generic "init" function.
+	// processed as a generic "init" function: the variables of a package are
+	// initialized after the packages that it imports and before its init
+	// functions are called.
 	if initVarsFn != nil {
-		inits = append(inits, initVarsFn)
+		own := append([]*runtime.Function{initVarsFn}, inits[numImportedInits:]...)
+		inits = append(inits[:numImportedInits:numImportedInits], own...)
 	}
 
 	return functions, vars, inits
